@@ -887,6 +887,53 @@ Proof.
   rewrite (canon_In _ _ _ _ W). rewrite map_face_faces. apply faces_of_In.
 Qed.
 
-(* ================================================================ C15 *)
-(* PLACEHOLDER (refined below) *)
-Definition exportable_b (d : domain) : bool := Nat.leb 2 (length (d_boundary d)).
+(* ================================================================ a successful join, forwards *)
+Lemma join_loop_intro ps bi dim : forall cs rl ifs ifs' bnds,
+  mapM (resolve_conn ps bi dim) cs = Ok rl -> build_ifs rl ifs = Ok ifs' ->
+  join_loop ps bi dim cs ifs bnds = Ok (ifs', bnds ++ joined_faces rl).
+Proof.
+  induction cs as [|c cs IH]; simpl; intros rl ifs ifs' bnds Hm Hb.
+  - inversion Hm; subst. simpl in Hb. inversion Hb; subst. now rewrite app_nil_r.
+  - apply bind_ok in Hm. destruct Hm as [x [Hx Hm]]. apply bind_ok in Hm. destruct Hm as [xs [Hxs Hm]].
+    inversion Hm; subst rl; clear Hm. simpl in Hb. apply bind_ok in Hb. destruct Hb as [ifs1 [Hs Hb]].
+    rewrite Hx. simpl. rewrite Hs. simpl. rewrite (IH xs ifs1 ifs' _ Hxs Hb).
+    now rewrite <- app_assoc.
+Qed.
+
+Definition join_result (ps : list domain) (nm : string) (rl : list (face * face * ornt)) (ifs : list iface)
+           (lifs : list iface) : domain :=
+  let ints := canonP (flat_map d_interiors ps) in
+  let bnd := join_boundary ps rl in
+  if forallb is_mapped ints
+  then mkDomain nm (join_dim ps) ints bnd ifs (multi_mapping ints)
+                (Some (logical_of nm (join_dim ps) ints bnd lifs))
+  else mkDomain nm (join_dim ps) ints bnd ifs MNone None.
+
+Lemma join_intro ps cs nm rl ifs :
+  2 <= length ps ->
+  forallb (fun p => Nat.eqb (d_dim p) (join_dim ps)) ps = true ->
+  resolve_all ps cs = Ok rl -> build_ifs rl [] = Ok ifs ->
+  existsb (fun p => Nat.ltb (length (d_boundary p)) 2) ps = false ->
+  length (join_boundary ps rl) <> 1 ->
+  2 <= length (canonP (flat_map d_interiors ps)) ->
+  forall lifs,
+  (forallb is_mapped (canonP (flat_map d_interiors ps)) = true -> logical_conn ifs [] = Ok lifs) ->
+  join ps cs nm = Ok (join_result ps nm rl ifs lifs).
+Proof.
+  destruct ps as [|p0 [|p1 r]]; simpl length; try lia. intros _.
+  set (ps := p0 :: p1 :: r). intros Hd Hr Hb He Hl Hi lifs HL.
+  unfold join. fold ps. change (d_dim p0) with (join_dim ps). rewrite Hd. simpl negb. cbv iota.
+  unfold resolve_all in Hr.
+  rewrite (join_loop_intro ps (by_indices cs) (join_dim ps) cs rl [] ifs [] Hr Hb). simpl bind. cbv iota beta.
+  rewrite He. fold (all_faces ps).
+  change (match joined_faces rl with
+          | [] => canonF (all_faces ps)
+          | _ :: _ => canonF (filter (fun f => negb (mem face_pyeqb f (canonF (joined_faces rl)))) (canonF (all_faces ps)))
+          end) with (join_boundary ps rl).
+  destruct (Nat.eqb (length (join_boundary ps rl)) 1) eqn:E1; [apply Nat.eqb_eq in E1; contradiction|].
+  destruct (Nat.ltb (length (canonP (flat_map d_interiors ps))) 2) eqn:E2; [apply Nat.ltb_lt in E2; lia|].
+  unfold join_result.
+  destruct (forallb is_mapped (canonP (flat_map d_interiors ps))) eqn:Hm.
+  - rewrite (HL eq_refl). reflexivity.
+  - reflexivity.
+Qed.
